@@ -51,8 +51,8 @@ theorem dec_of_encoder (n : Nat) (h2 : 2 ≤ n) (h68 : n ≤ 68) (msg : List Nat
   exact hz i hi
 
 /-- the full completeness statement (Sugiyama): any word within floor(n/2) of a codeword of length
-≤ 255 is restored to exactly that codeword.  NOT PROVED: kept visible as a proposition; the partial
-result below covers distance 0, and the clause is exercised by the differential runs. -/
+≤ 255 is restored to exactly that codeword.  PROVED in `QRV/Props/C14Complete.lean` (`dec_complete`); the partial
+result below (distance 0) is kept for reference. -/
 def dec_complete_statement : Prop :=
   ∀ (n : Nat) (c r : List Nat), 2 ≤ n → n ≤ 68 → Bytes c → Bytes r → c.length = r.length → c.length ≤ 255 →
     Codeword n c → dist c r ≤ n / 2 → RS.decode r n = .ok c
